@@ -38,7 +38,7 @@ def g_prefix_collision(a, b):
 
 
 # ---------------------------------------------------------------- (a) pure level -------
-def pure_level(report, tier):
+def pure_level(report, tier, prefix="C04"):
     from nanoemoji import codepoints
     from nanoemoji.glyph import glyph_name
 
@@ -60,17 +60,17 @@ def pure_level(report, tier):
         fp = "hashed" if len("_".join("%x" % c for c in s)) > 63 else ("g_" if name.startswith("g_") else "alpha")
         report.fps["name:" + fp] += 1
         if not FEA_NAME.match(name):
-            report.add_violation("C04.name-legal", {"kind": "name", "seq": list(s)}, f"glyph name {name!r} is not legal in a feature file")
+            report.add_violation(prefix + ".name-legal", {"kind": "name", "seq": list(s)}, f"glyph name {name!r} is not legal in a feature file")
         if name in names and names[name] != s:
             other = names[name]
             sig = "g-prefix-collision" if g_prefix_collision(s, other) else None
-            report.add_violation("C04.name-injective", {"kind": "name-pair", "a": list(other), "b": list(s)},
+            report.add_violation(prefix + ".name-injective", {"kind": "name-pair", "a": list(other), "b": list(s)},
                                  f"{[hex(c) for c in other]} and {[hex(c) for c in s]} both get glyph name {name!r}", sig)
         names.setdefault(name, s)
         for style in ("emoji_u", "dash"):
             got = codepoints.from_filename(stem(s, style))
             if tuple(got) != s:
-                report.add_violation("C04.filename-roundtrip", {"kind": "filename", "seq": list(s), "style": style},
+                report.add_violation(prefix + ".filename-roundtrip", {"kind": "filename", "seq": list(s), "style": style},
                                      f"{stem(s, style)} parses to {[hex(c) for c in got]}")
     report.status["ok"] += len(seqs)
     report.executions += len(seqs)
